@@ -522,6 +522,7 @@ def run_c20(rep):
     fam_stdlib.independence_probe(rep, sizes(rep, 60, 1000))
     fam_stdlib.fractional_weights_probe(rep, sizes(rep, 80, 1500))
     fam_stdlib.reentrant_threshold_probe(rep, sizes(rep, 80, 1500))
+    fam_stdlib.shop_consistency_probe(rep, sizes(rep, 100, 2000))
 
 
 def run_c06(rep):
@@ -580,6 +581,9 @@ def run_c13(rep):
     fam_include.include_family(rep, n, mf)
     fam_include.history_probes(rep, "C13")
     fam_include.duplicate_report_probe(rep, "C13")
+    # attribution as authors meet it: the location and the numbered context lines of diagnostics across include boundaries
+    import fam_diag
+    fam_diag.diag_family(rep, sizes(rep, 12, 150), known_classes=known_classes("C14"))
 
 
 def run_c14(rep):
@@ -604,6 +608,7 @@ def run_c12(rep):
     fam_graph.graph_family(rep, n, ops, "C12", known_classes=known_classes("C12"))
     import fam_text
     fam_text.initial_passage_family(rep, sizes(rep, 600, 12000))
+    fam_text.symlink_start_probe(rep)
     text_tie(rep, "c12-text", quick=(200, 200, 150), thorough=(4000, 4000, 3000))
 
 
@@ -619,6 +624,7 @@ def run_c19(rep):
     fam_browser.long_history_probe(rep)
     fam_browser.import_sessions(rep, sizes(rep, 25, 400))
     fam_browser.render_order_probe(rep)
+    fam_browser.bundle_imports_probe(rep)
     fam_browser.bundle_check(rep, sizes(rep, 6, 20), rep.seed)
 
 
